@@ -8,12 +8,14 @@ declare -A CHECKS=(
  [C09-1]="C09" [C09-2]="C09" [C10-1]="C10" [C10-2]="C10" [C12-1]="C12 C17" [C12-2]="C12" [C15-1]="C15" [C15-2]="C15"
  [C16-1]="C16" [C16-2]="C16" [C17-1]="C17" [C17-2]="C17" [C18-1]="C18" [C18-2]="C18" [C19-1]="C19" [C19-2]="C19"
  [C20-1]="C20" [C20-2]="C20" [C05-3]="C05" [C05-4]="C05" [C06-3]="C06" [C06-4]="C06" [C08-3]="C08" [C08-4]="C08" [C10-3]="C10" [C10-4]="C10" [C18-3]="C16 C18" [C18-4]="C18"
+ [C09-3]="C09" [C09-4]="C09 C08" [C12-3]="C12 C17" [C12-4]="C12" [C15-3]="C15" [C15-4]="C15" [C16-3]="C16" [C16-4]="C16" [C17-3]="C17" [C17-4]="C17 C09"
+ [C19-3]="C19" [C19-4]="C19" [C20-3]="C20 C06" [C20-4]="C20"
 )
 for d in seeded/*/; do
   s=$(basename $d)
   [[ -n "$PFX" && "$s" != $PFX* ]] && continue
   for c in ${CHECKS[$s]:-${s%%-*}}; do
-    out=$(tools/try_seed.sh seeded/$s/patch.diff $c 2>&1)
+    out=$(${TRY:-tools/try_seed.sh} seeded/$s/patch.diff $c 2>&1)
     rc=$(echo "$out" | grep -o "check_exit=[0-9]*" | tail -1)
     first=$(echo "$out" | grep -m1 "failed obligation" | cut -c1-150)
     nfi=$(echo "$out" | grep -c "no-failing-input-found")
